@@ -6,7 +6,7 @@ mkdir -p /tmp/mutwt
 git -C /repo worktree add -q --detach $WT HEAD || exit 2
 for m in $SRC/m*/; do
   name=$(basename $m)
-  git -C $WT checkout -q -- . 
+  git -C $WT reset -q --hard HEAD
   echo "=== $PID $name"
   (cd $WT && PYTHONPATH=$WT timeout 600 /venv/bin/python $m/demo.py >/dev/null 2>&1); pre=$?
   if ! git -C $WT apply $m/patch.diff 2>/dev/null; then
@@ -18,5 +18,5 @@ for m in $SRC/m*/; do
   echo "  check exit=$rc violations=$(echo "$out" | grep -c '^VIOLATION') drift=$(echo "$out" | grep -c '^DRIFT')"
   echo "$out" | grep "signature=" | sed 's/^/    /' | sort | uniq -c | head -5
 done
-git -C $WT checkout -q -- .
+git -C $WT reset -q --hard HEAD
 git -C /repo worktree remove --force $WT
